@@ -2,7 +2,7 @@
 
 use crate::{Error, Result, StringRef};
 use std::collections::HashMap;
-use std::io::{Read, Seek, SeekFrom};
+use std::io::{self, Read, Seek, SeekFrom};
 use std::sync::Arc;
 
 /// Represents a string block in a DBC file
@@ -17,8 +17,17 @@ impl StringBlock {
     pub fn parse<R: Read + Seek>(reader: &mut R, offset: u64, size: u32) -> Result<Self> {
         reader.seek(SeekFrom::Start(offset))?;
 
-        let mut data = vec![0u8; size as usize];
-        reader.read_exact(&mut data)?;
+        // The size comes from the header: read through `take` so that no more is
+        // allocated than the reader actually delivers
+        let mut data = Vec::new();
+        reader.by_ref().take(size as u64).read_to_end(&mut data)?;
+        if data.len() != size as usize {
+            return Err(io::Error::new(
+                io::ErrorKind::UnexpectedEof,
+                "string block extends past the end of the input",
+            )
+            .into());
+        }
 
         Ok(Self { data })
     }
